@@ -96,11 +96,6 @@ ERRS = ('operation_aborted|connection_refused|bad_descriptor|address_in_use|acce
         'service_not_found|socket_type_not_supported|not_found|fd_set_failure')
 
 GENERIC = [
-    # ---- casts
-    Rule(r'\b(?:static_cast|reinterpret_cast|const_cast)\s*<\s*(%s)\s*(const)?\s*>\s*\(' % _ity,
-         lambda m: '((%s)(' % INT_TYPES[norm_ws(m.group(1))], name='named-cast-int'),
-    Rule(r'(?<![\w:.>])(%s)\s*\((?!\s*\))' % _ity,
-         lambda m: '((%s)(' % INT_TYPES[norm_ws(m.group(1))], name='functional-cast'),
     # ---- moves / literals
     Rule(r'\bstd::forward<[^<>]*>\s*\(', '(', name='std::forward'),
     Rule(r'\bnullptr\b', '0', name='nullptr'),
@@ -132,6 +127,7 @@ GENERIC = [
     # ---- misc
     Rule(r'\bmake_malloc\s*\(', '(', name='make_malloc'),
     Rule(r'\baux::packet\s+(\w+)\s*;', r'struct packet \1 = PACKET_INIT;', name='packet decl'),
+    Rule(r'\b(?:aux::)?packet\s+const\s*&\s*(\w+)\s*=', r'const struct packet \1 =', name='const packet ref local (by-value copy)'),
     Rule(r'\baux::packet\b(\s+const)?\s*&', r'struct packet *', name='packet ref'),
     Rule(r'\baux::packet\b', 'struct packet', name='packet type'),
     Rule(r'\bstd::(size_t|uint8_t|uint16_t|uint32_t|uint64_t|int32_t|int64_t|ptrdiff_t)\b', r'\1', name='std int types'),
@@ -200,6 +196,55 @@ def lower_slot_assign(text, fn_slots_re):
             return 'fn_clear(&%s);' % m.group(1)
         return 'fn_assign(&%s, %s);' % (m.group(1), rhs)
     return pat.sub(rep, text)
+
+
+def lower_casts(text):
+    """static_cast<T>(e), reinterpret_cast<T>(e), T(e) for scalar T -> ((T)(e)) (paren-aware)"""
+    def named(m, args):
+        inner = m.string[m.end():]
+        return None
+    # named casts
+    pat = re.compile(r'\b(?:static_cast|reinterpret_cast|const_cast)\s*<\s*(%s)\s*(?:const)?\s*>\s*\(' % _ity)
+    while True:
+        m = pat.search(text)
+        if not m:
+            break
+        op = m.end() - 1
+        cp = match_close(text, op, '(', ')')
+        text = text[:m.start()] + '((%s)(%s))' % (INT_TYPES[norm_ws(m.group(1))], text[op + 1:cp]) + text[cp + 1:]
+    pat = re.compile(r'(?<![\w:.>])(%s)\s*\((?!\s*\))' % _ity)
+    pos = 0
+    while True:
+        m = pat.search(text, pos)
+        if not m:
+            break
+        # not a declaration like `int f(` / `unsigned x(`: require that what precedes is not a type keyword context
+        op = m.end() - 1
+        cp = match_close(text, op, '(', ')')
+        rep = '((%s)(%s))' % (INT_TYPES[norm_ws(m.group(1))], text[op + 1:cp])
+        text = text[:m.start()] + rep + text[cp + 1:]
+        pos = m.start() + len('((%s)(' % INT_TYPES[norm_ws(m.group(1))])
+    return text
+
+
+def lower_fp(text, log):
+    """floating point: the operations of a serialisation-time style computation become uninterpreted
+    functions, so that the verifier decides by congruence which operands flow into which operation.
+    FP text that no rule recognises stays concrete C floating point."""
+    dbl = set(re.findall(r'\bdouble\s+(?:const\s+)?(\w+)\s*=', text))
+    n_total = 0
+    # literal / double(int-expr)
+    text, n = re.subn(r'(\b\d+\.\d*(?:[eE][+-]?\d+)?)\s*/\s*\(\(double\)\(([^()]+)\)\)', r'FDIV(\1, I2F(\2))', text)
+    n_total += n
+    for d in dbl:
+        # int64(d * x), int64(x * d)
+        text, n = re.subn(r'\(\(int64_t\)\(\s*%s\s*\*\s*([\w.>-]+)\s*\)\)' % re.escape(d), r'F2I(FMUL(%s, I2F(\1)))' % d, text)
+        n_total += n
+        text, n = re.subn(r'\(\(int64_t\)\(\s*([\w.>-]+)\s*\*\s*%s\s*\)\)' % re.escape(d), r'F2I(FMUL(%s, I2F(\1)))' % d, text)
+        n_total += n
+    if n_total:
+        log.append({"rule": "fp-uninterpreted", "fired": n_total})
+    return text
 
 
 def drop_diagnostics(text, log):
